@@ -147,3 +147,200 @@ theorem energy_history_grand (sim : Sim) (he : sim.ens = .grand) (ts : List GTri
     exact ⟨i1, ⟨g2, g1.lastE⟩, i2⟩
 
 end MC
+
+/-! ### evaluation counts: one evaluation per trial that reaches its criteria, none for a failed one -/
+namespace MC
+open MM
+
+theorem getEnergy_changed (c : CalcS) (a : AtomsS) (hch : (changes c.snap a).1 = true) :
+    (getEnergy c a).2.evals = c.evals + 1 := by
+  unfold getEnergy
+  by_cases hs : c.style = .stateless
+  · simp [hs]
+  · simp [hs, hch]
+
+theorem getEnergy_style (c : CalcS) (a : AtomsS) : (getEnergy c a).2.style = c.style := by
+  unfold getEnergy
+  simp only []
+  generalize (if c.style = .stateless then (true, true) else changes c.snap a) = ch
+  cases h1 : ch.1
+  · simp only [Bool.false_eq_true, if_false]
+    cases c.results <;> rfl
+  · simp only [if_true]
+
+theorem revertCalc_evals (ens : Ensemble) (c : CalcS) (lr : Option Int) (a : AtomsS) :
+    (revertCalc ens c lr a).evals = c.evals ∧ (revertCalc ens c lr a).style = c.style := by
+  cases ens <;> simp [revertCalc]
+
+/-- what a trial costs, for ANY driver and any tree whose failure/rejection restores the atoms (same hypotheses as
+    `einv_trial_of`), with a calculator that caches results (plain caching or per-atom state) -/
+theorem evals_trial_of (sim : Sim) (t : Tree) (v : Bool) (cs : CState) (heinv : EInv cs)
+    (hns : cs.cal.style ≠ .stateless)
+    (hfail : (callTree t cs.m).1 = false → (callTree t cs.m).2.atoms = cs.m.atoms)
+    (hrej : (callTree t cs.m).1 = true → (revertState sim (callTree t cs.m).2).atoms = cs.m.atoms)
+    (hrc : (callTree t cs.m).1 = true → ∀ c : CalcS, Fresh c (callTree t cs.m).2.atoms →
+            Fresh (revertCalc sim.ens c (some (energy cs.m.atoms)) cs.m.atoms) cs.m.atoms) :
+    let cs' := (logRead (ctrial sim t v cs).2).2
+    cs'.cal.evals ≤ cs.cal.evals + 1 ∧
+    ((ctrial sim t v cs).1 = .failed → cs'.cal.evals = cs.cal.evals) ∧
+    ((ctrial sim t v cs).1 ≠ .failed → (changes cs.cal.snap (callTree t cs.m).2.atoms).1 = true →
+        cs'.cal.evals = cs.cal.evals + 1) := by
+  unfold ctrial
+  rcases hct : callTree t cs.m with ⟨ok, s1⟩
+  rw [hct] at hfail hrej hrc
+  simp only [] at hfail hrej hrc ⊢
+  cases ok with
+  | false =>
+    simp only [Bool.false_eq_true, if_false]
+    have hf : Fresh cs.cal s1.atoms := fresh_congr _ _ _ (hfail rfl) heinv.fresh
+    have := (getEnergy_free cs.cal s1.atoms hns hf).1
+    simp only [logRead, this]
+    refine ⟨Nat.le_succ _, ?_, ?_⟩
+    · first | (intro _; rfl) | (intro _; trivial) | trivial
+    · intro h; exact absurd rfl h
+  | true =>
+    have hv0 : Valid cs.cal := fresh_valid _ _ heinv.fresh
+    obtain ⟨_, f1, v1, e1, st1⟩ := getEnergy_spec cs.cal s1.atoms hv0
+    have hns1 : (getEnergy cs.cal s1.atoms).2.style ≠ .stateless := by rw [st1]; exact hns
+    cases v with
+    | true =>
+      simp only [if_true]
+      have h2 := (getEnergy_free _ s1.atoms hns1 f1).1
+      have f2' : Fresh (getEnergy cs.cal s1.atoms).2 (saveState sim s1).atoms :=
+        fresh_congr _ _ _ (saveState_atoms sim s1) f1
+      have h3 := (getEnergy_free _ (saveState sim s1).atoms hns1 f2').1
+      simp only [logRead, h2, h3]
+      exact ⟨e1, (fun h => by cases h), fun _ hch => getEnergy_changed _ _ hch⟩
+    | false =>
+      simp only [if_true, Bool.false_eq_true, if_false]
+      have hat : (revertState sim s1).atoms = cs.m.atoms := hrej rfl
+      have hrc' : Fresh (revertCalc sim.ens (getEnergy cs.cal s1.atoms).2 cs.lastResults (revertState sim s1).atoms)
+          (revertState sim s1).atoms := by
+        rw [hat, heinv.lastR]
+        exact hrc rfl _ f1
+      have hre := revertCalc_evals sim.ens (getEnergy cs.cal s1.atoms).2 cs.lastResults (revertState sim s1).atoms
+      have hsr : (revertCalc sim.ens (getEnergy cs.cal s1.atoms).2 cs.lastResults (revertState sim s1).atoms).style
+          ≠ .stateless := by rw [hre.2]; exact hns1
+      have h3 := (getEnergy_free _ (revertState sim s1).atoms hsr hrc').1
+      simp only [logRead, h3, hre.1]
+      exact ⟨e1, (fun h => by cases h), fun _ hch => getEnergy_changed _ _ hch⟩
+
+/-- the three restoration facts `einv_trial_of`/`evals_trial_of` need, for every kind of trial of an `ATrial` history -/
+theorem trial_hyps_A (sim : Sim) (he : sim.ens = .canonical ∨ sim.ens = .hamiltonian ∨ sim.ens = .isobaric)
+    (k : TKind) (s : State) (hinv : Inv sim.ens s) (hok : AKindOK sim s k) :
+    let t := (ATrial.tree { kind := k, verdict := true, inp := s.inp })
+    ((callTree t s).1 = false → (callTree t s).2.atoms = s.atoms) ∧
+    ((callTree t s).1 = true → (revertState sim (callTree t s).2).atoms = s.atoms) ∧
+    ((callTree t s).1 = true → ∀ c : CalcS, Fresh c (callTree t s).2.atoms →
+            Fresh (revertCalc sim.ens c (some (energy s.atoms)) s.atoms) s.atoms) := by
+  have hb : sim.ens ≠ .base := by rcases he with h | h | h <;> rw [h] <;> simp
+  cases k with
+  | pos tr =>
+    simp only [ATrial.tree]
+    obtain ⟨hrs, ht⟩ := hok
+    have hk := callTree_keeps tr s hrs ht
+    refine ⟨callTree_fail tr s hrs ht, ?_, ?_⟩
+    · intro hok'
+      have := (reject_restores sim tr s hb hinv hrs ht hok').2
+      simpa [trial, hok'] using this
+    · intro _ c hfc
+      rcases he with h | h | h
+      · rw [h]; exact revertCalc_fresh_aux .canonical (Or.inl rfl) c _ _ hk.pos.auxOnly hfc
+      · rw [h]; exact revertCalc_fresh_aux .hamiltonian (Or.inr rfl) c _ _ hk.pos.auxOnly hfc
+      · rw [h]; exact revertCalc_fresh_strip c _ _ hk.pos.stripOnly hfc
+  | cell r =>
+    simp only [ATrial.tree]
+    obtain ⟨hiso, hk⟩ := hok
+    have hspec := cellCall_spec r s
+    have hcall : callTree (.leaf r) s = cellCall r s := by simp [callTree, leafCall, hk]
+    refine ⟨?_, ?_, ?_⟩
+    · intro hf
+      have := fail_restores_cell sim r true s hk hf
+      simpa [trial, hf] using this
+    · intro hok'
+      have := reject_restores_cell sim r s hiso hinv hk hok'
+      simpa [trial, hok'] using this
+    · intro hok' c hfc
+      rw [hiso]
+      apply revertCalc_fresh_strip c s.atoms _ _ hfc
+      rw [hcall] at hok' ⊢
+      rcases hspec.2.2 with ⟨hx, _⟩ | ⟨_, f, hf⟩
+      · rw [hok'] at hx; cases hx
+      · rw [hf]; exact deform_strip _ _ _
+  | ham r =>
+    simp only [ATrial.tree]
+    obtain ⟨hham, hk⟩ := hok
+    have hspec := hamCall_spec r s
+    have hcall : callTree (.leaf r) s = hamCall r s := by simp [callTree, leafCall, hk]
+    refine ⟨?_, ?_, ?_⟩
+    · intro hf
+      have := fail_restores_ham sim r true s hk hf
+      simpa [trial, hf] using this
+    · intro hok'
+      have := reject_restores_ham sim r s hham hinv hk hok'
+      simpa [trial, hok'] using this
+    · intro hok' c hfc
+      apply revertCalc_fresh_aux sim.ens (Or.inr hham) c s.atoms _ _ hfc
+      rw [hcall] at hok' ⊢
+      rcases hspec.2.2 with ⟨hx, _⟩ | ⟨_, haux⟩
+      · rw [hok'] at hx; cases hx
+      · exact haux
+
+def reached (o : Outcome) : Nat := if o = .failed then 0 else 1
+
+def countReached (sim : Sim) : List ATrial → CState → Nat
+  | [], _ => 0
+  | t :: ts, cs => reached (cstep sim t cs).1.1 + countReached sim ts (cstep sim t cs).2
+
+theorem cstep_evals (sim : Sim) (he : sim.ens = .canonical ∨ sim.ens = .hamiltonian ∨ sim.ens = .isobaric)
+    (t : ATrial) (cs : CState) (hinv : Inv sim.ens cs.m) (heinv : EInv cs) (hns : cs.cal.style ≠ .stateless)
+    (hok : AKindOK sim cs.m t.kind) :
+    (cstep sim t cs).2.cal.evals ≤ cs.cal.evals + reached (cstep sim t cs).1.1 ∧
+    (cstep sim t cs).2.cal.style = cs.cal.style := by
+  have hinv' : Inv sim.ens (withInp cs t.inp).m := ⟨hinv.1, hinv.2, hinv.3, hinv.4, hinv.5⟩
+  have heinv' : EInv (withInp cs t.inp) := ⟨heinv.1, heinv.2, heinv.3⟩
+  have hok' : AKindOK sim (withInp cs t.inp).m t.kind := by
+    cases hk : t.kind with
+    | pos tr => rw [hk] at hok; exact hok
+    | cell r => rw [hk] at hok; exact hok
+    | ham r => rw [hk] at hok; exact hok
+  obtain ⟨h1, h2, h3⟩ := trial_hyps_A sim he t.kind (withInp cs t.inp).m hinv' hok'
+  have htree : ATrial.tree { kind := t.kind, verdict := true, inp := (withInp cs t.inp).m.inp } = t.tree := rfl
+  simp only [htree] at h1 h2 h3
+  obtain ⟨g1, g2, _⟩ := evals_trial_of sim t.tree t.verdict (withInp cs t.inp) heinv' hns h1 h2 h3
+  constructor
+  · show (logRead (ctrial sim t.tree t.verdict (withInp cs t.inp)).2).2.cal.evals
+        ≤ cs.cal.evals + reached (ctrial sim t.tree t.verdict (withInp cs t.inp)).1
+    unfold reached
+    split
+    · rename_i hf; rw [g2 hf]; exact Nat.le_refl _
+    · exact g1
+  · show (logRead (ctrial sim t.tree t.verdict (withInp cs t.inp)).2).2.cal.style = cs.cal.style
+    -- the style never changes
+    unfold ctrial logRead
+    rcases callTree t.tree (withInp cs t.inp).m with ⟨ok, s1⟩
+    have gs := getEnergy_style
+    cases ok <;> cases t.verdict <;> simp [gs, (revertCalc_evals _ _ _ _).2, withInp]
+
+/-- **evals_history**: with a result-caching calculator, a whole history costs at most one evaluation per trial that
+    reached its criteria; failed trials, rejections and the logger's reads cost nothing -/
+theorem evals_history (sim : Sim) (he : sim.ens = .canonical ∨ sim.ens = .hamiltonian ∨ sim.ens = .isobaric)
+    (ts : List ATrial) (cs : CState) (hinv : Inv sim.ens cs.m) (heinv : EInv cs)
+    (hns : cs.cal.style ≠ .stateless) (hok : AHistoryOK sim ts cs.m) :
+    (runC sim ts cs).cal.evals ≤ cs.cal.evals + countReached sim ts cs := by
+  have hb : sim.ens ≠ .base := by rcases he with h | h | h <;> rw [h] <;> simp
+  induction ts generalizing cs with
+  | nil => exact Nat.le_refl _
+  | cons t ts ih =>
+    obtain ⟨hk, hrest⟩ := hok
+    obtain ⟨g1, _⟩ := cstep_spec sim he t cs hinv heinv hk
+    obtain ⟨e1, e2⟩ := cstep_evals sim he t cs hinv heinv hns hk
+    have hm := cstep_m sim t cs
+    have hinv2 : Inv sim.ens (cstep sim t cs).2.m := by
+      rw [hm]; exact (astep_spec sim hb t cs.m hinv hk).1
+    have hrest2 : AHistoryOK sim ts (cstep sim t cs).2.m := by rw [hm]; exact hrest
+    have := ih _ hinv2 g1 (by rw [e2]; exact hns) hrest2
+    simp only [runC, countReached]
+    omega
+
+end MC
